@@ -358,7 +358,7 @@ def get_first_body_node_loc(body):
     if not body:
         return None
 
-    if type(body[0]) in (FunctionDef, ClassDef) and body[0].decorator_list:  # type: ignore[attr-defined]
+    if getattr(body[0], 'decorator_list', None):  # a decorated def, async def or class
         return body[0].decorator_list[0].lineno, body[0].col_offset  # type: ignore[attr-defined]
 
     for n in body:
